@@ -179,7 +179,7 @@ fn one_index(rng: &mut Rng, out: &mut CaseOut, ix: usize, thorough: bool) -> Res
     reader.reload().map_err(|e| e.to_string())?;
     let searcher = reader.searcher();
     out.spec_checked(searcher.segment_readers().len() <= 1, json!({"what": "merge left more than one segment", "index": ix}));
-    // without deletes the merge stacks the segments: F82 applies to the fields found above
+    // without deletes the merge stacks the segments: the fields found above are in the class of F82 (fixed; counted only)
     let known = if deleted.iter().any(|&d| d) { no_known.clone() } else { f82_fields };
     check_segments(&searcher, &docs, Some(&deleted), &known, rng, out, ix, "after-merge")?;
     out.count("tantivy_indexes", 1);
@@ -234,8 +234,8 @@ fn check_segments(searcher: &tantivy::Searcher, docs: &[BTreeMap<&'static str, V
                     let fail = check_column(&expected, f.kind, &obs, rng, out, &ctx);
                     let mut c2 = ctx.clone();
                     if let Some(fm) = &fail { c2["what"] = json!(format!("tantivy fast field: {}", fm)); }
-                    if fail.is_some() && known_f82.contains(f.name) { c2["known"] = json!("F82"); out.n_spec += 1; out.spec_fail.push(c2); out.count("f82_stack_of_legacy_multivalued_with_empty_rows", 1); }
-                    else { out.spec_checked(fail.is_none(), c2); }
+                    if known_f82.contains(f.name) { out.count("stack_of_legacy_multivalued_with_empty_rows_columns", 1); c2["former_f82_class"] = json!(true); }
+                    out.spec_checked(fail.is_none(), c2);     // a failure in the class of F82 (fixed in /repo) is an ordinary violation
                     out.count("tantivy_columns_checked", 1);
                 }
             }
@@ -246,7 +246,6 @@ fn check_segments(searcher: &tantivy::Searcher, docs: &[BTreeMap<&'static str, V
         let c = seg.fast_fields().u64("id").unwrap(); (0..seg.max_doc()).map(|d| c.first(d).map(|v| v as usize).unwrap_or(usize::MAX)).collect() }).collect();
     if !seg_ids.is_empty() && seg_ids.iter().flatten().all(|&i| i < docs.len()) {
         for fname in ["u_full", "u_opt", "u_multi", "i_opt", "i_multi", "d_nanos"] {
-            if known_f82.contains(fname) { continue; }     // merged column corrupted by the known finding F82: reported above
             let field = searcher.schema().get_field(fname).map_err(|e| e.to_string())?;
             let mapped = |v: &Val| -> u64 { match v { Val::U(x) => *x, Val::I(x) => x.to_u64(), Val::D(n) => n.to_u64(), _ => 0 } };
             let term = |m: u64| -> Term { match fname.as_bytes()[0] { b'u' => Term::from_field_u64(field, m), b'i' => Term::from_field_i64(field, i64::from_u64(m)), _ => Term::from_field_date(field, DateTime::from_timestamp_nanos(i64::from_u64(m))) } };
